@@ -14,6 +14,7 @@ generated as multiples of 60 m so that the splits of the auto-design stay exact 
 """
 import copy
 import glob
+import itertools
 import json
 import logging
 import os
@@ -841,6 +842,110 @@ def has_raman(topo):
     return any('r' in ln.get('tab', '') + ln.get('tba', '') for ln in topo['lines'])
 
 
+# ------------------------------------------------------------------ multiband stream (round-5 seed C11_r5m1)
+_MB = None
+
+
+def mb_stream(ctx, seed, count):
+    """C+L networks built from the shipped multiband example (templates only): rings / meshes of 3-5 ROADMs whose links
+    have a described Multiband booster and, at random, NO described preamplifier, so that the auto-design inserts a
+    Multiband_amplifier preamp.  Judged against the specification's weights (fibre length of the span an edge leaves,
+    0.01 otherwise): (a) every edge of the designed graph carries that weight, (b) the route gnpy returns for a plain
+    request is a shortest one by those weights (Dijkstra of networkx on a copy re-weighted by the rule)."""
+    global _MB
+    import random
+    import networkx as nx
+    from pathlib import Path
+    from types import SimpleNamespace
+    import gnpy
+    from gnpy.core.elements import Fiber
+    from gnpy.core.network import add_missing_elements_in_network
+    from gnpy.tools.json_io import load_equipment, network_from_json
+    from gnpy.topology.request import compute_constrained_path
+    data = Path(gnpy.__file__).parent / 'example-data'
+    if _MB is None:
+        ex = json.loads((data / 'multiband_example_network.json').read_text())
+        _MB = (load_equipment(data / 'eqpt_config_multiband.json'), {e['uid']: e for e in ex['elements']})
+    eq, tmpl = _MB
+    need = ['roadm Site_A', 'trx Site_A', 'east edfa in Site_A to Site_B', 'west edfa in Site_A to Site_B',
+            'fiber (Site_A \u2192 Site_B)-']
+    if any(k not in tmpl for k in need):
+        ctx.count('mb_templates_missing')
+        return
+    rng = random.Random(seed * 104729 + 11)
+    for _ in range(count):
+        n = rng.choice([3, 3, 4, 5])
+        sites = [chr(65 + i) for i in range(n)]
+        pairs = [(sites[i], sites[(i + 1) % n]) for i in range(n)]
+        pairs += [p for p in itertools.combinations(sites, 2) if p not in pairs and (p[1], p[0]) not in pairs and rng.random() < 0.3]
+        links = []
+        for a, b in pairs:
+            km = rng.choice([rng.uniform(20, 110), float(rng.randint(2, 11) * 10)])
+            for x, y in ((a, b), (b, a)):
+                links.append({'a': x, 'b': y, 'km': km, 'pre': rng.random() < 0.5})
+        case = {'kind': 'multiband', 'sites': sites, 'links': links}
+        els, con = [], []
+
+        def make(t, uid, **params):
+            el = copy.deepcopy(tmpl[t])
+            el['uid'] = uid
+            el.get('params', {}).update(params)
+            return el
+        for x in sites:
+            els += [make('roadm Site_A', f'roadm {x}'), make('trx Site_A', f'trx {x}')]
+            con += [(f'trx {x}', f'roadm {x}'), (f'roadm {x}', f'trx {x}')]
+        for ln in links:
+            a, b = ln['a'], ln['b']
+            els += [make('east edfa in Site_A to Site_B', f'booster {a}{b}'),
+                    make('fiber (Site_A \u2192 Site_B)-', f'fiber {a}{b}', length=ln['km'], length_units='km')]
+            con += [(f'roadm {a}', f'booster {a}{b}'), (f'booster {a}{b}', f'fiber {a}{b}')]
+            if ln['pre']:
+                els.append(make('west edfa in Site_A to Site_B', f'preamp {a}{b}'))
+                con += [(f'fiber {a}{b}', f'preamp {a}{b}'), (f'preamp {a}{b}', f'roadm {b}')]
+            else:
+                con.append((f'fiber {a}{b}', f'roadm {b}'))
+        topo = {'elements': els, 'connections': [{'from_node': f, 'to_node': t} for f, t in con]}
+        try:
+            net = network_from_json(topo, eq)
+            add_missing_elements_in_network(net, eq)
+        except Exception as e:                      # noqa: the multiband auto-design is not C11's subject
+            ctx.count('mb_design_raised_' + type(e).__name__)
+            continue
+        ctx.count('mb_networks')
+        ctx.count('mb_auto_preamps', sum(1 for ln in links if not ln['pre']))
+        spec = nx.DiGraph()
+        bad = None
+        for u, v in net.edges():
+            w = u.params.length if isinstance(u, Fiber) else 0.01
+            spec.add_edge(u.uid, v.uid, weight=w)
+            got = net[u][v].get('weight', -1)
+            if bad is None and abs(got - w) > 1e-9 * max(1.0, w):
+                bad = (u.uid, v.uid, got, w)
+        ctx.case(case, True)
+        if bad:
+            ctx.violation('edge_weight_not_fibre_length', f'multiband network: edge {bad[0]} -> {bad[1]} weighs {bad[2]}, '
+                          f'fibre length rule gives {bad[3]}', case)
+        src, dst = rng.sample(sites, 2)
+        req = SimpleNamespace(request_id='0', source=f'trx {src}', destination=f'trx {dst}', nodes_list=[f'trx {dst}'],
+                              loose_list=['STRICT'], blocking_reason=None)
+        try:
+            path = compute_constrained_path(net, req)
+        except Exception as e:
+            ctx.violation('exception', f'multiband network: compute_constrained_path raised {type(e).__name__}: {e}', case)
+            continue
+        opt = nx.dijkstra_path_length(spec, f'trx {src}', f'trx {dst}', weight='weight')
+        if not path:
+            ctx.violation('blocked_but_route_exists', f'multiband network: no route {src} -> {dst}, one of {opt} m exists', case)
+            continue
+        uids = [e.uid for e in path]
+        w = sum(spec[a][b]['weight'] for a, b in zip(uids, uids[1:])) if all(spec.has_edge(a, b) for a, b in zip(uids, uids[1:])) else None
+        if w is None:
+            ctx.violation('not_a_path', f'multiband network: returned route {src} -> {dst} uses a hop that is no edge', case)
+        elif w > opt + 1e-6:
+            ctx.violation('not_shortest', f'multiband network: route {src} -> {dst} weighs {w:.2f} m by the fibre-length rule, '
+                          f'a route of {opt:.2f} m exists', case, route=uids)
+
+
 def run(ctx):
     rng = ctx.rng
     # second tie: re-translate the decision code of /repo (harness/pygen_c11.py); the equivalence lemmas of
@@ -922,6 +1027,8 @@ def run(ctx):
                 case = {'topo': c['topo'], 'requests': [rq]}
                 judge(ctx, N, rq, obs, txt, case)
         del terms, meta
+    if not ctx.replay:
+        mb_stream(ctx, ctx.seed, ctx.scale(25, 300))
     if not ctx.replay:
         # members of a synchronisation vector: the include / strictness clause applies to them too (step 4 of
         # compute_path_dsjctn); pairs with include lists over all element kinds, judged by route_ok and the
